@@ -824,7 +824,7 @@ class Interp:
 
     def iter_elem(self, it: AV, node=None) -> AV:
         if self.lib and (it.unit is not None or it.kind is not None or
-                         it.idx is not None):
+                         it.idx is not None or it.cls == "colarray"):
             # facets carried by the container itself (an array in radians)
             # belong to its elements
             v = self.lib.iter_elem(self, it, node)
